@@ -243,6 +243,67 @@ func forEachC01Input(w *W, emit emitFn) {
 	c01E4(w, emit)
 	c01E5(w, emit)
 	c01E6(w, emit)
+	c01E7(w, emit)
+}
+
+// E7: long number literals. The number scanner switches routes by literal length (19/20/21
+// characters, the 64-character fast window) and integers of 309 and more digits are not finite.
+func c01E7(w *W, emit emitFn) {
+	lengths := []int{17, 18, 19, 20, 21, 22, 23, 24, 25, 26, 40, 63, 64, 65, 100, 307, 308, 309, 310, 311, 400, 700}
+	w.Note(fmt.Sprintf("E7: digit strings of %d lengths (17..26, 40, 63..65, 100, 307..311, 400, 700), with and without a minus sign, first digit 1 and 9; for lengths <= 26 every single substitution of one of - + . e E at every position, and for lengths 21 and 22 every pair of - / + substitutions; as array element and object value", len(lengths)))
+	digits := func(L int, first byte) []byte {
+		b := make([]byte, L)
+		for i := range b {
+			b[i] = byte('0' + (i*7+3)%10)
+		}
+		b[0] = first
+		return b
+	}
+	out := func(lit []byte) {
+		for ctx := 1; ctx <= 2; ctx++ {
+			w.res.States++
+			w.res.Transitions++
+			emit(wrap3(append([]byte(nil), lit...), ctx), lit, "C01-E7-long-numbers")
+		}
+	}
+	for _, L := range lengths {
+		if !w.Mine() {
+			continue
+		}
+		for _, first := range []byte{'1', '9'} {
+			for _, neg := range []bool{false, true} {
+				base := digits(L, first)
+				if neg {
+					base = append([]byte{'-'}, base...)
+				}
+				out(base)
+				if L > 26 {
+					continue
+				}
+				for pos := 0; pos < len(base); pos++ {
+					for _, c := range []byte("-+.eE") {
+						m := append([]byte(nil), base...)
+						m[pos] = c
+						out(m)
+					}
+				}
+				if L == 21 || L == 22 {
+					for p1 := 1; p1 < len(base); p1++ {
+						for p2 := p1 + 1; p2 < len(base); p2++ {
+							for _, cc := range []string{"--", "-+", "+-", "++"} {
+								m := append([]byte(nil), base...)
+								m[p1], m[p2] = cc[0], cc[1]
+								out(m)
+							}
+						}
+					}
+				}
+			}
+		}
+		if w.Expired() || w.TooManyViolations() {
+			return
+		}
+	}
 }
 
 func c01Body(w *W) {
